@@ -79,7 +79,7 @@ func c10Written(m *c10Model, meta *storage.Object, content string, tag string) {
 }
 
 func H_C10_history() {
-	g := vNewEmu()
+	g := vNewEmuOn(vChoice("store", 0, 1))
 	names := []string{"o", "p"}
 	ms := []*c10Model{{}, {}}
 	k := vBound("steps", 3, 4)
@@ -193,6 +193,69 @@ func H_C10_history() {
 	vReach("c10-history")
 }
 
+// H_C10_race: a content write (upload, copy onto the name, compose onto the name) overlapping a
+// metadata PATCH of the same object, all interleavings. Whatever the order, the stored object is
+// the writer's: its content, its MD5, the generation it reported (greater than the old one); the
+// PATCH, if it was serialised second, raised metageneration to 2 and set its field, otherwise it
+// was overwritten by the write and metageneration is 1.
+func H_C10_race() {
+	g := vNewEmu()
+	vPut(g, "b", "src", []byte("S"))
+	base := vPut(g, "b", "o", []byte("base"))
+	kind := vChoice("writer", 0, 2)
+	var wrote *storage.Object
+	var wcode, pcode int
+	vGo(func() {
+		w := vNewRecorder()
+		switch kind {
+		case 0:
+			m, err := g.finishUpload(vCtx(), dontNeedUrls, &storage.Object{Bucket: "b", Name: "o"}, []byte("S"), "b", emptyConds)
+			if err == nil {
+				cp := *m
+				wrote, wcode = &cp, http.StatusOK
+			}
+			return
+		case 1:
+			g.handleGcsCopy(vCtx(), dontNeedUrls, w, "b", "src/rewriteTo/b/b/o/o")
+		case 2:
+			r := &http.Request{Body: &vBody{decode: func(v interface{}) error {
+				req := v.(*storage.ComposeRequest)
+				req.Destination = &storage.Object{}
+				req.SourceObjects = []*storage.ComposeRequestSourceObjects{{Name: "src"}}
+				return nil
+			}}}
+			g.handleGcsCompose(vCtx(), dontNeedUrls, w, r, "b", "o/compose", emptyConds)
+		}
+		wcode = w.code
+		wrote = w.object()
+		for _, b := range w.bodies {
+			if o, ok := b.(*storage.RewriteResponse); ok {
+				wrote = o.Resource
+			}
+		}
+	})
+	vGo(func() { pcode = c07Patch(g, emptyConds, "text/patched") })
+	vJoin()
+	st := vSnap(g, "b", "o")
+	vAssert(wcode == http.StatusOK && wrote != nil, "content-write-ok")
+	vAssert(pcode == http.StatusOK, "patch-ok")
+	if wrote == nil {
+		return
+	}
+	vAssert(st.exists && string(st.content) == "S", "content-is-the-writer's")
+	vAssert(st.gen > base.Generation, "generation-greater-than-before")
+	vAssert(st.gen == wrote.Generation, "stored-generation-is-the-one-the-write-reported")
+	vAssert(st.md5 == wrote.Md5Hash && wrote.Md5Hash != base.Md5Hash, "md5-belongs-to-the-content")
+	vAssert(st.metagen == 1 || st.metagen == 2 && st.ctype == "text/patched", "metageneration-1-or-patched-once-after-the-write")
+	w := vNewRecorder()
+	g.handleGcsMetadataRequest(dontNeedUrls, w, "b", "o")
+	if o := w.object(); o != nil {
+		vAssert(o.Generation == st.gen && o.Metageneration == st.metagen && o.Size == 1, "metadata-get-agrees")
+	}
+	vReach("c10-race")
+}
+
 func init() {
+	vHarnesses["H_C10_race"] = H_C10_race
 	vHarnesses["H_C10_history"] = H_C10_history
 }
